@@ -14,7 +14,7 @@ func c19(ctx *Ctx) (*Outcome, error) {
 	var cases []*sem.Case
 	for i := 0; i < n; i++ {
 		r := sg.NewRng(ctx.Seed, fmt.Sprintf("C19-case-%d", i))
-		g := sg.NewGen(r, sg.Opts{MaxDepth: 3, PNullable: 0.3, PDefault: 0.3, PAddProps: 0.35, AnyBranch: true, W: map[string]float64{"compose": 2.5, "enum": 3, "map": 1.5}})
+		g := sg.NewGen(r, sg.Opts{MaxDepth: 3, PNullable: 0.3, PDefault: 0.3, PAddProps: 0.35, AnyBranch: true, AddPropsTrue: true, NullType: true, RootKinds: true, W: map[string]float64{"compose": 2.5, "enum": 3, "map": 1.5}})
 		root := g.Root()
 		c := &sem.Case{Root: root, Sig: root.Sig()}
 		if i%2 == 0 {
